@@ -96,6 +96,7 @@ store_account (int *blocks, long *bytes)
 		{	(*blocks) ++ ;
 			*bytes += (long) stores [k].cap ;
 			}
+	iolog_account (blocks, bytes) ;
 }
 
 static void
